@@ -117,6 +117,83 @@ Definition diagnose (G : guard_map) (P : program) : list (string * string) :=
                      | Some c => match explain G [] [] c with Some e => [(fst p, e)] | None => [] end
                      end) P.
 
+(* ---- entry points: goroutines start only in [entries]; the other functions are helpers that
+   are reached through calls (and are checked inlined at their call sites, with the caller's locks) ---- *)
+Definition inline_entries (fuel : nat) (P : program) (entries : list string) : option (list (list instr)) :=
+  fold_right (fun f acc => match lookup f P, acc with
+                           | Some body, Some l => match inline fuel P body with Some c => Some (c :: l) | None => None end
+                           | _, _ => None end) (Some []) entries.
+
+Definition well_locked_from (G : guard_map) (P : program) (entries : list string) : bool :=
+  match inline_entries fuel0 P entries with
+  | Some bodies => forallb (check G [] []) bodies
+  | None => false
+  end.
+
+Definition diagnose_from (G : guard_map) (P : program) (entries : list string) : list (string * string) :=
+  flat_map (fun f => match lookup f P with
+                     | None => [(f, "entry point without a translated body")]
+                     | Some body => match inline fuel0 P body with
+                                    | None => [(f, "call depth exceeded or unknown callee")]
+                                    | Some c => match explain G [] [] c with Some e => [(f, e)] | None => [] end
+                                    end
+                     end) entries.
+
+(* ---- no lock is re-acquired on any call path (sync.Mutex / RWMutex are not reentrant; a
+   recursive RLock deadlocks as soon as a writer is queued in between) ---- *)
+Fixpoint no_reacquire (X : list string) (c : list instr) : bool :=
+  match c with
+  | [] => true
+  | Acq m :: r | AcqR m :: r => negb (mem m X) && no_reacquire (m :: X) r
+  | Rel m :: r | RelR m :: r => no_reacquire (rem1 m X) r
+  | _ :: r => no_reacquire X r
+  end.
+Definition no_recursive_lock (P : program) : bool :=
+  match inline_all fuel0 P with
+  | Some bodies => forallb (no_reacquire []) bodies
+  | None => false
+  end.
+Definition reacquirers (P : program) : list string :=
+  flat_map (fun p => match inline fuel0 P (snd p) with
+                     | Some c => if no_reacquire [] c then [] else [fst p]
+                     | None => [fst p] end) P.
+
+(* ---- lock order: the pairs (held, acquired) over all call paths form an acyclic relation, and no
+   unresolved callback runs under a mutex other than the Listener's ---- *)
+Fixpoint order_edges (X : list string) (c : list instr) : list (string * string) :=
+  match c with
+  | [] => []
+  | Acq m :: r | AcqR m :: r => (map (fun h => (h, m)) X ++ order_edges (m :: X) r)%list
+  | Rel m :: r | RelR m :: r => order_edges (rem1 m X) r
+  | _ :: r => order_edges X r
+  end.
+Fixpoint reaches (E : list (string * string)) (fuel : nat) (a b : string) : bool :=
+  String.eqb a b ||
+  match fuel with
+  | 0 => false
+  | S n => existsb (fun e => String.eqb (fst e) a && reaches E n (snd e) b) E
+  end.
+Definition acyclic (E : list (string * string)) : bool :=
+  forallb (fun e => negb (reaches E (List.length E) (snd e) (fst e))) E.
+Fixpoint cb_ok (X : list string) (c : list instr) : bool :=
+  match c with
+  | [] => true
+  | Acq m :: r | AcqR m :: r => cb_ok (m :: X) r
+  | Rel m :: r | RelR m :: r => cb_ok (rem1 m X) r
+  | CallCb _ :: r => forallb (fun m => String.eqb m listener_mutex) X && cb_ok X r
+  | _ :: r => cb_ok X r
+  end.
+Definition lock_edges (P : program) : list (string * string) :=
+  match inline_all fuel0 P with
+  | Some bodies => flat_map (order_edges []) bodies
+  | None => []
+  end.
+Definition lock_order_ok (P : program) : bool :=
+  match inline_all fuel0 P with
+  | Some bodies => acyclic (flat_map (order_edges []) bodies) && forallb (cb_ok []) bodies
+  | None => false
+  end.
+
 (* ---- registration of the handlers through the locking wrappers ---- *)
 Definition wrapper_of (body : list instr) : option string :=
   match body with
@@ -379,3 +456,45 @@ Section Queue.
 
   Definition qstuck (under_lock : bool) (cap : nat) (s : qstate) : Prop := forall s', ~ qstep under_lock cap s s'.
 End Queue.
+
+(* ---- why a recursive RLock deadlocks: sync.RWMutex blocks NEW readers once a writer waits ----
+   reader:  RLock; RLock (nested, e.g. gratuitous -> shouldAnnounce); RUnlock; RUnlock   [nested = true]
+            RLock; RUnlock; RLock; RUnlock                                              [nested = false]
+   writer:  Lock (first announces itself as pending, then waits for the readers to drain); Unlock *)
+Section RecursiveRLock.
+  Inductive rpos := RP0 | RP1 | RP2 | RP3 | RPdone.   (* number of reader steps done *)
+  Inductive wpos := WP0 | WPpending | WPin | WPdone.
+  Record rrstate := mk_rrstate { rr_r : rpos; rr_w : wpos }.
+  (* read holds of the reader at each position *)
+  Definition rholds (nested : bool) (p : rpos) : nat :=
+    match p, nested with
+    | RP0, _ => 0 | RP1, _ => 1
+    | RP2, true => 2 | RP2, false => 0
+    | RP3, _ => 1
+    | RPdone, _ => 0
+    end.
+  (* is the reader's next step an RLock? *)
+  Definition next_is_rlock (nested : bool) (p : rpos) : bool :=
+    match p, nested with
+    | RP0, _ => true | RP1, true => true | RP2, false => true | _, _ => false
+    end.
+  Definition rnext (p : rpos) : rpos :=
+    match p with RP0 => RP1 | RP1 => RP2 | RP2 => RP3 | RP3 => RPdone | RPdone => RPdone end.
+
+  Inductive rrstep (nested : bool) : rrstate -> rrstate -> Prop :=
+    (* RLock: refused while a writer is pending or inside *)
+    | RRlock p w : next_is_rlock nested p = true -> (w = WP0 \/ w = WPdone) ->
+        rrstep nested (mk_rrstate p w) (mk_rrstate (rnext p) w)
+    | RRunlock p w : next_is_rlock nested p = false -> p <> RPdone ->
+        rrstep nested (mk_rrstate p w) (mk_rrstate (rnext p) w)
+    | RWpend p : rrstep nested (mk_rrstate p WP0) (mk_rrstate p WPpending)
+    | RWenter p : rholds nested p = 0 -> rrstep nested (mk_rrstate p WPpending) (mk_rrstate p WPin)
+    | RWleave p : rrstep nested (mk_rrstate p WPin) (mk_rrstate p WPdone).
+
+  Inductive rrsteps (nested : bool) : rrstate -> rrstate -> Prop :=
+    | rrsteps_refl s : rrsteps nested s s
+    | rrsteps_trans s s' s'' : rrsteps nested s s' -> rrstep nested s' s'' -> rrsteps nested s s''.
+
+  Definition rrstuck (nested : bool) (s : rrstate) : Prop := forall s', ~ rrstep nested s s'.
+  Definition rrfinished (s : rrstate) : Prop := rr_r s = RPdone /\ rr_w s = WPdone.
+End RecursiveRLock.
